@@ -343,7 +343,9 @@ ObjClosure(T, X, jfn) ==
 (*          or [kind |-> "link", obj, old, new]                               *)
 (*          or [kind |-> "list", obj, old, new]  (old/new: sequences)         *)
 ObjChainOfChange(T, ch, jfn) ==
-    CASE ch.kind = "link" -> ObjClosure(T, {ch.new, ch.old}, jfn)
+    \* since the repair for links held by objects whose own values depend on the linked object (a service job and its
+    \* service's server), the object holding the link is recomputed too, as for a list
+    CASE ch.kind = "link" -> ObjClosure(T, {ch.new, ch.old, ch.obj}, jfn)
       [] ch.kind = "list" ->
            LET removed == SeqSet(ch.old) \ SeqSet(ch.new)
                added   == SeqSet(ch.new) \ SeqSet(ch.old)
